@@ -340,6 +340,19 @@ def run(ctx):
         ctx.violation({"broken": "machinery", "python_oracle": ORACLE, "coq_c14_expect": table},
                       "the oracle table of checks/c14.py and Model/ErrCond.v c14_expect differ", name="oracle_table.json", no_failing_input=True)
 
+    # ---- T1 through the real gRPC Service handlers: generated histories, error CODES compared with the model's through the
+    #      regenerated server switch, the oracle's C14 clauses (no error with success, no success bit with an error, each refusal
+    #      its own code) evaluated on every real response
+    try:
+        from checks import seqcommon
+        from lib import seqtie
+        prof = seqcommon.prof(weights={"try": 26, "lock": 12, "unl": 22, "ren": 16, "adv": 10, "disc": 3, "restart": 1},
+                              sizes=[None, 1, 2, 0, -1, 3], lts=[None, 0, 1, 2, -1], wts=[None, 0, 1, -1], renew_lts=[1, 2, 0, -1],
+                              bad_key_pct=40, no_sess_pct=5, probe_every=5, sticky_size_pct=50)
+        seqtie.run_property(ctx, prof, 200 if ctx.tier == "quick" else 3000, "C14", ["C14"], svc_share=1.0)
+    except Exception as ex:  # noqa
+        ctx.note("T1 via-service stage crashed: %r" % (ex,))
+
     # ---- T4
     exe, blog, clientmap = build_e2e(ctx, info)
     obs, meta, elog = [], None, ""
